@@ -2,6 +2,7 @@
 From Cctp Require Import Lib.Bytes Lib.SMap Lib.Text Lib.Bech32 Lib.Hex Lib.Keccak.
 From Cctp Require Import Model.Codec Model.State Model.Attest Model.Ledger Model.Handlers Model.Chain.
 From Cctp Require Import Spec.Layout Proofs.MonadFacts Proofs.FlowFacts Proofs.MoneyFacts Proofs.CodecFacts Proofs.HistoryFacts Proofs.KeccakFacts.
+From Cctp Require Import Gen.GoF_sendMessage Gen.GoH_SendMessage Gen.GoH_SendMessageWithCaller.
 
 (* the CCTP message a producer is asked to emit, in the independent reference layout of Spec/Layout.v *)
 Definition ref_msg (dest nonce : N) (sender rcp caller body : bytes) : ref_message :=
@@ -97,7 +98,15 @@ Proof.
   rewrite DB' in DB. injection DB as <-. cbn [bm_token bm_amount burn_body] in Ev. eauto 10.
 Qed.
 
+(* sendMessage, SendMessage and SendMessageWithCaller as translated from the Go source are the model functions (go_X_ok: forall e request h, eq_or_unmodelled (go_X e request h) (handler e (X request) h): same result and same state wherever the model gives a verdict at all, i.e. except on denominations outside the character set the model folds; for the two helpers the right-hand side is send_message / deposit_for_burn). The statement is about the Gallina program that tools/goextract TRANSLATED from the Go source of /repo on this run (Gen/GoH_*.v, Gen/GoF_*.v; meaning of the Go constructs: Gen/GoSem.v). For a function the translator could not read the conjunct is True (Gen/<file> names the reason, the evidence lists it) and the tie for it is the differential execution alone. *)
+Theorem C06_go_send_handlers_are_the_model :
+  go_fn_sendMessage_ok /\
+  go_SendMessage_ok /\
+  go_SendMessageWithCaller_ok.
+Proof. split; [exact go_fn_sendMessage_ok_proof|]. split; [exact go_SendMessage_ok_proof|]. exact go_SendMessageWithCaller_ok_proof. Qed.
+
 Print Assumptions C06_send_message_exact.
 Print Assumptions C06_send_message_with_caller_exact.
 Print Assumptions C06_deposit_exact.
 Print Assumptions C06_replace_event_same_token.
+Print Assumptions C06_go_send_handlers_are_the_model.
